@@ -476,6 +476,35 @@ def drive(v, seed, runs):
                                       "workloop's own dq_state + bucket lists against WorkloopWordTrace; lock discipline incl. the workloop level)")
 
 
+def retarget_live(v, seed, quick):
+    """dispatch_set_target_queue on an active busy lane (spec/RetargetLive.tla + harness/drv_relive.c)."""
+    r = tlc_must_pass("RetargetLive", "RetargetLive.tla", "RetargetLive.cfg", workers=2, timeout=300)
+    v.add_model("RetargetLive", r)
+    if r.violated:
+        v.violation("RetargetLive.tla: %s violated (the specification itself)" % r.violated,
+                    save_replay(PROP, "RetargetLive.out", r.out[-20000:]))
+        return
+    src = open(os.path.join(SPEC, "cfg", "RetargetLive.cfg")).read()
+    mc = os.path.join(rundir(PROP), "RetargetLive_mut.cfg")
+    open(mc, "w").write(src.replace('Mut = "none"', 'Mut = "check_only_when_empty"'))
+    r = tlc_must_pass("RetargetLive mutant", "RetargetLive.tla", mc, workers=2, timeout=300, metaname="RetargetLive_mut")
+    if not r.violated:
+        raise Broken("spec mutant check_only_when_empty of RetargetLive.tla is not refuted")
+    drv = build_driver("drv_relive")
+    n = 0
+    for k in range(3 if quick else 12):
+        rc, out, err = sh([drv, "150" if quick else "600", str(seed * 10 + k)], timeout=600)
+        if rc in (2, 71):
+            v.violation("live retarget of an active queue onto a busy serial target: %s" % err.strip()[-400:],
+                        save_replay(PROP, "relive_%d.txt" % k, "drv_relive %s %d\n%s" % ("150" if quick else "600", seed * 10 + k, err)))
+            return
+        if rc != 0:
+            raise Broken("drv_relive rc=%s: %s" % (rc, err[-500:]))
+        n += 150 if quick else 600
+    v.traces += n
+    v.notes["live_retarget_rounds"] = n
+
+
 def run(tier, seed):
     v = Verdict(PROP, tier, seed)
     v.assumptions = [
@@ -551,6 +580,7 @@ def run(tier, seed):
                 runs.append(dict(shape=shp, cw=2 + (k + rep) % 2, execs=8, ops=35, perturb=2 + (k + rep) % 2, nt=3 + rep % 2,
                                  pp=0 if rep == 3 else 1))
     drive(v, seed, runs)
+    retarget_live(v, seed, quick)
     if tier != "quick":
         asan_workloop(v, seed)
     v.notes["phase_wall_s"] = {"tlc_models_and_mutants": round(t1 - t0, 1), "dqstate_conformance": round(t2 - t1, 1),
